@@ -16,6 +16,7 @@ inductive Obs where
 
 inductive Expect where
   | exact (r : Res) (collapseNaN : Bool)
+  | exactAlt (r : Res) (collapseNaN : Bool) (alt : Res) (tag : String)   -- `alt`: what a recorded finding produces instead
   | sorted (f : LFrame) (os : List Order)
   | distinct (f : LFrame) (gbNull : Bool) (keys : List Bytes)
   | groupAgg (r : Res)
@@ -271,8 +272,9 @@ structure Verdict where
   ok : Bool
   kind : String := ""     -- value | errdiff | panic | wf | digest | equals | groups
   detail : String := ""
+  known : Bool := false
 
-def judge (exp : Expect) (obs : Obs) : Verdict :=
+def judgeCore (exp : Expect) (obs : Obs) : Verdict :=
   match obs with
   | .panic msg => { ok := false, kind := "panic", detail := s!"operation panicked: {bytesToString msg}" }
   | .err len =>
@@ -282,10 +284,10 @@ def judge (exp : Expect) (obs : Obs) : Verdict :=
     | .exact .err _ => { ok := true }
     | .groupAgg .err => { ok := true }
     | .exact (.ok f) _ | .groupAgg (.ok f) => { ok := false, kind := "errdiff", detail := s!"got Err, spec gives {showFrame f}" }
-    | .sorted .. | .distinct .. => { ok := false, kind := "errdiff", detail := "got Err, spec gives a frame" }
+    | .sorted .. | .distinct .. | .exactAlt .. => { ok := false, kind := "errdiff", detail := "got Err, spec gives a frame" }
   | .frame g =>
     match exp with
-    | .skip _ => { ok := true }
+    | .skip _ | .exactAlt .. => { ok := true }
     | .sticky => { ok := false, kind := "errdiff", detail := s!"error not sticky: source had Err, result is {showFrame g}" }
     | .exact .err _ | .groupAgg .err => { ok := false, kind := "errdiff", detail := s!"spec rejects the request (Err), got {showFrame g}" }
     | .exact (.ok f) collapse =>
@@ -300,6 +302,16 @@ def judge (exp : Expect) (obs : Obs) : Verdict :=
     | .distinct f gbNull keys =>
       if isDistinctResult f g gbNull keys && (List.zip f.cols g.cols).all (fun (x, y) => x.ty == y.ty && x.vals == y.vals && x.strict == y.strict) then { ok := true }
       else { ok := false, kind := "value", detail := s!"not one whole row per key of {showFrame f}: got {showFrame g}" }
+
+def judge (exp : Expect) (obs : Obs) : Verdict :=
+  match exp with
+  | .exactAlt r collapse alt tag =>
+    let v := judgeCore (.exact r collapse) obs
+    if v.ok then v
+    else
+      let w := judgeCore (.exact alt collapse) obs
+      if w.ok then { ok := false, kind := tag, detail := v.detail, known := true } else v
+  | e => judgeCore e obs
 
 /-- Well-formedness of the physical state reported by the hook (the `WF` hypothesis of the refinement theorems). -/
 def checkPhys : P (Option String) := do
@@ -355,11 +367,11 @@ def expectOp (s : HState) (src : Option LFrame) (op : String) : P Expect := do
     let dst ← bytes
     let src ← bytes
     return .exact (copyS f dst src) false
-  | "apply" => return .exact (applyS up f (fun _ => true) (← parseInstrs)) true
+  | "apply" => return .exact (applyS up f (fun _ => true) false (← parseInstrs)) true
   | "fapply" =>
     let c ← parseClause
     let is ← parseInstrs
-    return .exact (filteredApplyS lo up f c is) true
+    return .exactAlt (filteredApplyS lo up f c is) true (filteredApplyS lo up f c is true) "KF-C06-fapply-fill"
   | "rownums" => return .exact (rowNumsS f (← bytes)) false
   | "eval" =>
     let dst ← bytes
@@ -476,6 +488,7 @@ def histLine (s : HState) (toks : Array String) : HState × List Msg :=
         let s' := (s.setFrame p.fid stored)
         let s' := { s' with pending := none }
         (s', [if v.ok then { cls := "OK", op := p.op, kind := "", detail := "" }
+              else if v.known then { cls := "KNOWN-FINDING", op := p.op, kind := v.kind, detail := v.detail }
               else { cls := "SPEC-MISMATCH", op := p.op, kind := v.kind, detail := v.detail }])
   | some "P" =>
     match runP (do let _ ← nat; checkPhys) toks 1 with
